@@ -79,14 +79,28 @@ func c11Profiles(quick bool) []*bworld.Profile {
 		JSONLog:     true,
 		Oracles:     []string{"C11"},
 	}
+	/* Lines typed ahead (or pasted, or inserted) before the input stream
+	attaches, and a stream that takes one more line and fails at the next:
+	what was delivered has its record. */
+	later := bworld.Profile{
+		Name:        "c11-write-fails-later",
+		OchCap:      1024,
+		Starts:      []bworld.StartSpec{{Kind: "in", Key: "k", WKind: 0, Max: 1}, {Kind: "in", Key: "k", WKind: 2, Max: 1}, {Kind: "io", WKind: 3, Max: 1}},
+		MaxAttempts: 2,
+		MaxLines:    3,
+		WFail:       true,
+		WFailLater:  true,
+		JSONLog:     true,
+		Oracles:     []string{"C11"},
+	}
 	if quick {
 		mix.Shutdown = false
-		return []*bworld.Profile{&slow, &down, &mix, &io}
+		return []*bworld.Profile{&slow, &down, &later, &mix, &io}
 	}
 	mix.MaxAttempts = 4
 	io.MaxAttempts = 3
 	io.Shutdown = true
-	return []*bworld.Profile{&slow, &down, &mix, &io}
+	return []*bworld.Profile{&slow, &down, &later, &mix, &io}
 }
 
 // c11Payloads: every string of <=3 symbols over a JSON-hostile alphabet.
